@@ -4,7 +4,7 @@
 # Writes /verif/seeded/<name>/{patch.diff,demo,confirm.log}; prints a one-line verdict.
 NAME="$1"; PATCH="$2"; DEMO="$3"
 D=/verif/seeded/$NAME; mkdir -p "$D"
-cp "$PATCH" "$D/patch.diff"; cp "$DEMO" "$D/$(basename "$DEMO")"
+cp "$PATCH" "$D/patch.diff"; cp "$DEMO" "$D/$(basename "$DEMO")"; for x in "$(dirname "$DEMO")"/seed_demo*.c; do [ -f "$x" ] && cp "$x" "$D/"; done
 WT=/tmp/confirm-wt-$NAME; TD=${CONFIRM_TARGET:-/tmp/confirm-target}
 git -C /repo worktree remove --force "$WT" >/dev/null 2>&1
 git -C /repo worktree add --detach "$WT" HEAD >/dev/null 2>&1 || { echo "$NAME: cannot create worktree"; exit 2; }
@@ -12,7 +12,7 @@ LOG="$D/confirm.log"; : > "$LOG"
 run_demo() {
   case "$DEMO" in
     *.rs) cp "$DEMO" "$WT/mla/tests/seed_demo_x.rs"; (cd "$WT" && CARGO_TARGET_DIR="$TD" cargo test --offline -p mla --test seed_demo_x >>"$LOG" 2>&1); rc=$?; rm -f "$WT/mla/tests/seed_demo_x.rs"; return $rc;;
-    *.sh) (cd "$WT" && CARGO_TARGET_DIR="$TD" cargo build --offline -p mlar >>"$LOG" 2>&1 && MLAR="$TD/debug/mlar" sh "$DEMO" >>"$LOG" 2>&1); return $?;;
+    *.sh) (cd "$WT" && CARGO_TARGET_DIR="$TD" cargo build --offline -p mlar >>"$LOG" 2>&1 && WT="$WT" TD="$TD" MLAR="$TD/debug/mlar" sh "$DEMO" >>"$LOG" 2>&1); return $?;;
   esac
 }
 echo "== demo on unchanged code" >>"$LOG"; run_demo; A=$?
